@@ -68,6 +68,12 @@ def audit(audit_file):
     """Runs `lake env lean Audit/Cxx.lean`; returns list of (theorem, [axioms]) and raw output.
 
     Audit files consist of `#print axioms <name>` lines (and imports)."""
+    if isinstance(audit_file, (list, tuple)):          # several audit files of one property (e.g. Audit/C05.lean + Audit/C05Fn.lean)
+        rc, res, wanted, out = 0, [], [], ""
+        for f in audit_file:
+            r1, s1, w1, o1 = audit(f)
+            rc, res, wanted, out = rc or r1, res + s1, wanted + w1, out + o1
+        return rc, res, wanted, out
     with LeanLock():
         rc, out = _run(["lake", "env", "lean", audit_file])
     res = []
